@@ -71,6 +71,8 @@ struct Case {
     fee: String,
     latency_ms: u64,
     reqs: Vec<Req>,
+    #[serde(default)]
+    clock_steps_back: bool,
 }
 
 fn d(s: &str) -> Decimal {
@@ -258,10 +260,17 @@ fn run_client(case: &Case) -> Result<Outcome, V> {
         let (event_tx, event_rx) = broadcast::channel::<UnindexedAccountEvent>(1024);
         let exchange = MockExchange::new(config(case), req_rx, event_tx, mock_instruments());
         let handle = tokio::spawn(exchange.run());
+        // client-side request clock: advances by 7 ms per call, but (as with several clients or a clock
+        // that is stepped back) it sometimes jumps backwards - request times are client supplied
         let clock_ms = Arc::new(AtomicI64::new(10_000));
+        let skew = case.clock_steps_back;
         let clock = {
             let c = clock_ms.clone();
-            move || fixtures::t(c.fetch_add(7, Ordering::Relaxed))
+            move || {
+                let n = c.fetch_add(7, Ordering::Relaxed);
+                let back = if skew && (n / 7) % 5 == 3 { 40 + (n % 13) } else { 0 };
+                fixtures::t(n - back)
+            }
         };
         let client = <MockExecution<_> as ExecutionClient>::new(MockExecutionClientConfig { mocked_exchange: ExchangeId::Mock, clock, request_tx: req_tx, event_rx });
         let mut stream = client.account_stream(&[], &[]).await.map_err(|e| ("client_account_stream_failed", format!("{e:?}")))?;
@@ -305,13 +314,17 @@ fn run_client(case: &Case) -> Result<Outcome, V> {
         }
         // drain the account stream: everything arrives within `wait` of virtual time after the last response
         let mut got: Vec<(String, String)> = vec![];
+        let mut trade_times: Vec<(String, chrono::DateTime<chrono::Utc>)> = vec![];
         loop {
             match tokio::time::timeout(wait, stream.next()).await {
                 Ok(Some(ev)) => {
                     out.steps += 1;
                     match ev.kind {
                         AccountEventKind::BalanceSnapshot(b) => got.push(("balance".into(), format!("{}={}", b.0.asset.name(), b.0.balance.total))),
-                        AccountEventKind::Trade(t) => got.push(("trade".into(), format!("{}:{}:{}", "cid?", t.order_id.0, t.fees.fees.normalize()))),
+                        AccountEventKind::Trade(t) => {
+                            trade_times.push((t.id.0.to_string(), t.time_exchange));
+                            got.push(("trade".into(), format!("{}:{}:{}", "cid?", t.order_id.0, t.fees.fees.normalize())))
+                        }
                         other => got.push(("other".into(), format!("{other:?}"))),
                     }
                 }
@@ -341,6 +354,27 @@ fn run_client(case: &Case) -> Result<Outcome, V> {
         let want_fees: Vec<Decimal> = led.accepted.iter().map(|(_, f)| f.normalize()).collect();
         if trades.len() != led.accepted.len() || got_fees != want_fees || trades.iter().map(|t| t.id.0.to_string()).collect::<HashSet<_>>().len() != trades.len() {
             return Err(("trade_query_differs_from_accepted_orders", format!("{} trades (fees {got_fees:?}) vs {} accepted (fees {want_fees:?})", trades.len(), led.accepted.len())));
+        }
+        // time-bounded trade queries: exactly the accepted fills whose exchange time is >= the bound
+        let mut bounds: Vec<chrono::DateTime<chrono::Utc>> = vec![];
+        for (_, tt) in trade_times.iter().take(6) {
+            for d in [-1i64, 0, 1] {
+                bounds.push(*tt + chrono::TimeDelta::milliseconds(d));
+            }
+        }
+        for since in bounds {
+            out.checks += 1;
+            let got = tokio::time::timeout(wait, client.fetch_trades(since)).await.map_err(|_| ("no_response_from_mock_exchange", "fetch_trades".to_string()))?.map_err(|e| ("client_query_failed", format!("{e:?}")))?;
+            let mut got_ids: Vec<String> = got.iter().map(|t| t.id.0.to_string()).collect();
+            let mut want_ids: Vec<String> = trade_times.iter().filter(|(_, tt)| *tt >= since).map(|(id, _)| id.clone()).collect();
+            got_ids.sort();
+            want_ids.sort();
+            if got_ids != want_ids {
+                return Err(("time_bounded_trade_query_differs_from_accepted_orders", format!("fetch_trades(since={since}): returned ids {got_ids:?}, accepted fills at or after that time {want_ids:?} (fill times {:?})", trade_times)));
+            }
+            if case.clock_steps_back {
+                out.cells.push("trade_query_with_non_monotone_request_times".into());
+            }
         }
         drop(client);
         drop(stream);
@@ -418,7 +452,7 @@ fn gen_case(rng: &mut Rng) -> Case {
             }
         }
     }
-    Case { balances, fee, latency_ms: *rng.pick(&[0u64, 1, 10, 250]), reqs }
+    Case { balances, fee, latency_ms: *rng.pick(&[0u64, 1, 10, 250]), reqs, clock_steps_back: rng.bool() }
 }
 
 fn execute(case: &Case, client: bool, report: &mut Report) {
@@ -487,6 +521,7 @@ fn main() {
             "reject:insufficient_balance",
             "driver:client",
             "driver:direct",
+            "trade_query_with_non_monotone_request_times",
         ] {
             report.require(c);
         }
